@@ -29,24 +29,7 @@ Definition impl_accepted (p : proj) (ctx : option nat) (r : ref) (i : ires) : bo
   | IErr => spec_accepts p ctx r RErr
   end.
 
-(* region 1 precisely: a qualified component that the Spec finds in the context or its parent *)
-Definition region1 (p : proj) (ctx : option nat) (r : ref) : bool :=
-  region_kind_scope ctx r &&
-  match ctx with
-  | Some c =>
-    negb (Nat.eqb (length (scope_cands p c (r_name r) (r_kind r))) 0)
-    || match get_ent p c with
-       | Some e => match e_parent e with
-                   | Some par => negb (Nat.eqb (length (scope_cands p par (r_name r) (r_kind r))) 0)
-                   | None => false
-                   end
-       | None => false
-       end
-  | None => false
-  end.
-(* region 2: the implementation raised *)
-Definition region2 (i : ires) : bool := match i with IErr => true | _ => false end.
-(* region 3: the name is found only in an attribute that FortranBase.children does not chain *)
+(* diagnostic only: a candidate has an attribute that FortranBase.children does not chain *)
 Definition uncovered (p : proj) (i : nat) : bool :=
   match get_ent p i with Some e => negb (attrs_covered e) | None => false end.
 Definition region3 (p : proj) (ctx : option nat) (r : ref) : bool :=
@@ -69,7 +52,6 @@ Definition judge (c : case) : nat :=
   let ctx := fst (snd (fst c)) in
   let r := snd (snd (fst c)) in
   let i := snd c in
-  verdict (negb (agrees (convert_link p ctx r) i))
+  verdict (negb (agrees (render p ctx r) i))
           (negb (impl_accepted p ctx r i))
-          ((if region1 p ctx r then 1 else 0) + (if region2 i then 2 else 0)
-           + (if region3 p ctx r then 4 else 0)).
+          (if region3 p ctx r then 4 else 0).
